@@ -674,6 +674,13 @@ func (x *Exec) evalIdent(env *specEnv, n *ast.Ident, cl *Clause) Val {
 		return tFalse
 	case "nil":
 		return Term{S: "ref_nil", Sort: sRef}
+	case "inpanic":
+		// a panic is in flight at this point of the path (deferred calls are running because of it, and nothing has
+		// recovered it yet)
+		if env.st != nil && env.st.panicking != nil {
+			return tTrue
+		}
+		return tFalse
 	case "panicval":
 		if env.panicVal == nil {
 			x.specFail(cl, "panicval used outside a panics clause")
@@ -788,7 +795,7 @@ func (x *Exec) loadIn(env *specEnv, ref Term, pt types.Type) Val {
 	if su, ok := under(pt).(*types.Struct); ok && !isTypeParam(pt) {
 		return st.loadStruct(env.snapshot(), ref, su, pt)
 	}
-	return st.loadAt(env.snapshot(), "box."+sanitize(pt.String()), ref, pt, nil)
+	return st.loadAt(env.snapshot(), boxKey(pt), ref, pt, nil)
 }
 
 func (x *Exec) selectField(env *specEnv, base Val, name string, cl *Clause) Val {
